@@ -103,10 +103,22 @@ def validate_before_store(ctx, f, cfg):
                 tt = cb.term(d)
                 if tt and tt["k"] == "switch":
                     a = sl.of_operand(tt["op"])
-                    if "discr" in a and any_atom(a, "call:ConfigEntity::check") and any_atom(a, "call:Try::branch") and (val & a):
+                    if not (any_atom(a, "call:ConfigEntity::check") and (val & a)):
+                        continue
+                    # success edge of the test on check(value): `?` (ControlFlow::Continue = 0), a match / if-let on the Result
+                    # (Ok = 0; the unlisted arm of a two-arm test), or is_ok() / is_err()
+                    cont = []
+                    if "discr" in a:
                         cont = [tg for v, tg in tt["targets"] if v == 0]
-                        if cont and cb.dominates(cont[0], bb):
-                            ok = True
+                        if not cont and len(tt["targets"]) == 1 and (cb.term(tt["otherwise"]) or {}).get("k") != "unreachable":
+                            cont = [tt["otherwise"]]
+                    elif tt.get("ty") == "bool" and (any_atom(a, "call:is_ok") or any_atom(a, "call:is_err")):
+                        te = bool_edge_targets(cb, d)
+                        if te:
+                            neg = ("op:Not" in a) != bool(any_atom(a, "call:is_err"))
+                            cont = [te[1] if neg else te[0]]
+                    if cont and cb.dominates(cont[0], bb):
+                        ok = True
             ctx.instance("C17.validate-before-store", "%s -> %s" % (cb.path, sp.rsplit("::", 1)[-1]), "store dominated by check(value)? success edge: %s" % ok, "true", ok, cfg)
             if not ok:
                 w = cb.find_path([0], [bb])
